@@ -1,0 +1,17 @@
+//go:build verif
+
+package walstore
+
+// verifPointFn is nil unless a verification harness installs it. It is called at the named
+// points of the prune cleanup (watermark tmp written, watermark renamed, WAL rotated, obsolete
+// WAL removed) so that a harness can copy the WAL directory as a crash image at that point.
+var verifPointFn func(name string)
+
+// SetVerifPoint installs (or, with nil, removes) the crash-point callback.
+func SetVerifPoint(fn func(name string)) { verifPointFn = fn }
+
+func verifPoint(name string) {
+	if fn := verifPointFn; fn != nil {
+		fn(name)
+	}
+}
